@@ -89,6 +89,11 @@ def c06(tr, viol):
                         cea = next((s for s in sends if s["cmd"] == "CE" and not s["req"] and s["hbh"] == fr["hbh"]), None)
                         if cea is not None and cea["result"] == 2001:
                             done[cid] = True
+                        elif cea is None and cid in o["stalled"]:
+                            # the CEA is held back by the socket: the connection state tells the outcome
+                            ca_ = conn_of(o["snap"], cid)
+                            if ca_ is not None and ca_[2] in (2, 3, 4):
+                                done[cid] = True
                     elif is_ce and (not inbound) and (not fr["req"]) and fr["result"][0] == "Present" and fr["result"][1] == 2001 \
                             and fr["origin"][0] == "Present":
                         done[cid] = True
@@ -197,7 +202,21 @@ def c08(tr, viol):
                                     target = ai
                                     break
                             want = ("deliver", target) if target is not None else ("answer", 3007, [])
-                        if want[0] == "deliver":
+                        if cid in o["stalled"]:
+                            # the socket takes nothing: answers are queued, not written; only the hand-over is visible now
+                            if want[0] == "deliver" and (len(deliv) != 1 or deliv[0][0] != want[1]):
+                                viol("routing", case_of(tr, i), {"delivered": deliv}, f"deliver once to application {want[1]}",
+                                     what="request not handed exactly once to the matching application")
+                            if want[0] != "deliver" and deliv:
+                                viol("routing", case_of(tr, i), {"delivered": deliv}, "no delivery",
+                                     what="a request the node must answer itself reached an application")
+                        elif want[0] == "deliver" and fr.get("tag") == 1:
+                            # the application's handler raises on this request: handed over once, and "5012 when handling fails"
+                            if len(deliv) != 1 or deliv[0][0] != want[1] or ans is None or ans["result"] != 5012:
+                                viol("routing", case_of(tr, i), {"delivered": deliv, "answer": ans},
+                                     f"deliver once to application {want[1]}, then answer 5012",
+                                     what="a request whose handling fails is not answered 5012 (or was not handed to the matching application once)")
+                        elif want[0] == "deliver":
                             if len(deliv) != 1 or deliv[0][0] != want[1] or ans is not None:
                                 viol("routing", case_of(tr, i), {"delivered": deliv, "answer": ans}, f"deliver once to application {want[1]}",
                                      what="request not handed exactly once to the matching application")
@@ -232,7 +251,10 @@ def c09(tr, viol):
         before = tr.obs[i - 1]["snap"] if i else {"conns": []}
         if e["ev"] == "recv":
             for d in o["delivered"]:
-                arrived[(d[1], d[2])] = e["cid"]
+                # a request the node answered itself in the same breath (its handler raised: 5012) is no longer open
+                self_answered = any((not s["req"]) and s["hbh"] == d[1] and s["e2e"] == d[2] for s in o["sends"].get(e["cid"], []))
+                if not self_answered:
+                    arrived[(d[1], d[2])] = e["cid"]
         if e["ev"] == "app_answer":
             m = e["msg"]
             key = (m.header.hop_by_hop_identifier, m.header.end_to_end_identifier)
@@ -251,8 +273,8 @@ def c09(tr, viol):
                          what="an application's answer was transmitted on a connection other than the requester's")
             else:
                 if sent_on or res != "NotRoutable":
-                    twin = [c[0] for c in before["conns"] if want_cid is not None and c[0] != want_cid and c[3] and
-                            any(c[3] == x[3] for x in tr.obs[j]["snap"]["conns"] for j in range(i) if x[0] == want_cid)]
+                    names = {x[3] for j in range(i) for x in tr.obs[j]["snap"]["conns"] if x[0] == want_cid}
+                    twin = [c[0] for c in before["conns"] if want_cid is not None and c[0] != want_cid and c[3] and c[3] in names]
                     viol("gone-is-not-routable", case_of(tr, i, {"requester": want_cid, "same_host_connections": twin}), {"sent_on": sent_on, "result": res},
                          what="answer for a gone / already answered / unknown request was not refused with NotRoutable")
 
@@ -547,10 +569,13 @@ def c10(tr, viol):
 
 def c18(tr, viol):
     stopping_from = None
+    backlog = set()
     for i, (e, o) in enumerate(zip(tr.events, tr.obs)):
         before = tr.obs[i - 1]["snap"] if i else {"conns": [], "peers": []}
         if e["ev"] == "stop":
             stopping_from = i
+            # output queued before the stop on a socket that took nothing is written whenever the socket recovers
+            backlog = {cid for j in range(i + 1) for cid in tr.obs[j]["stalled"]}
             ready = sorted(c[0] for c in before["conns"] if c[2] in (2, 3))
             dpr = sorted(cid for cid, ms in o["sends"].items() for s_ in ms if s_["cmd"] == "DP" and s_["req"])
             held = [c for c in ready if c in o["stalled"]]
@@ -562,7 +587,7 @@ def c18(tr, viol):
         if stopping_from is not None:
             for cid, ms in o["sends"].items():
                 for s_ in ms:
-                    if s_["req"] and s_["cmd"] in ("DW", "CE"):
+                    if s_["req"] and s_["cmd"] in ("DW", "CE") and cid not in backlog:
                         viol("quiet-while-stopping", case_of(tr, i), s_, what="a DWR/CER was sent while the node is stopping")
             if o["dials"]:
                 viol("quiet-while-stopping", case_of(tr, i), o["dials"], what="a peer was dialled while the node is stopping")
